@@ -342,6 +342,8 @@ def run(R):
                     ths.append(const_val(o_[2]) + (1 if o_[1] == 'Ge' else 0))
                 elif o_[0] == 'bin' and o_[1] in ('Gt', 'Ge') and isinstance(const_val(o_[3]), int) and term_contains(o_[2], lambda x: is_call(x, name='len') or is_call(x, name='remaining')):
                     ths.append(None)
+                elif o_[0] == 'bin' and o_[1] in ('Eq', 'Ne') and ((const_val(o_[3]) == 0 and is_floor4(o_[2])) or (const_val(o_[2]) == 0 and is_floor4(o_[3]))):
+                    ths.append(4)  # the largest multiple of 4 not above len is 0 exactly when len < 4
             R.check(bool(ths) and all(isinstance(k_, int) and k_ <= 4 for k_ in ths), 'C16.R5', 'wait-only-below-one-quantum', site(dc, nb), 'decode_chunk waits for more input only while len < %r (must be <= 4, the base64 quantum max_decodable() rounds to)' % ths)
         pdx = web.body('call::GrpcWebCall::<B>::poll_decode')
         R.saw(pdx)
@@ -357,16 +359,29 @@ def run(R):
             flip = (hr[0][1]['name'] == 'is_empty') != (neg_[0] == 'un' and neg_[1] == 'Not')
             if flip:
                 true_t, false_t = false_t, true_t   # "leftover" edge first
-            errs = [bb for bb in writers_of(pdx, 0) if any(w[0] == 'variant' and w[2] == 'Ready' and term_contains(w[3][0], lambda x: x and x[0] == 'agg' and x[1].get('variant') == 'Err') for w in block_writes(pdx, bb, 0))]
-            ok_t = any(pdx.dominates(true_t[0], e) for e in errs) if true_t else False
-            R.check(ok_t, 'C16.R5', 'leftover->error', site(pdx, sw), 'leftover bytes at the end of a base64 body produce an error')
             def ends(v_):
                 v_ = strip_refs(v_)
                 # Ready(None), or Ready(trailers.take().map(..)) which is None exactly when no trailers are stored
                 return (v_[0] == 'agg' and v_[1].get('variant') == 'None') or (is_call(v_, name='map') and is_call(strip_refs(v_[2][0]), name='take') and mentions_field(v_[2][0], 'trailers'))
-            nones = [bb for bb in writers_of(pdx, 0) if any(w[0] == 'variant' and w[2] == 'Ready' and ends(w[3][0]) for w in block_writes(pdx, bb, 0))]
-            ok_f = all(false_t and pdx.dominates(false_t[0], n) for n in nones) and bool(nones)
-            R.check(ok_f, 'C16.R5', 'clean-end-only-without-leftover', site(pdx, sw), 'Ready(None) only on the no-leftover edge')
+            # by feasible path from the leftover test to a return: leftover -> an error; a clean end only without leftover
+            n_left = n_end = 0
+            ok_t = True
+            ok_f = True
+            for cons, path in mirlib.path_rows(pdx, start=sw):
+                if len(path) < 2:
+                    continue
+                val = strip_refs(mirlib.simplify(pdx.ret_on_path(path)))
+                leftover = path[1] in true_t
+                pay = strip_refs(val[2][0]) if val and val[0] == 'agg' and val[1].get('variant') == 'Ready' and val[2] else None
+                is_err = pay is not None and term_contains(pay, lambda x: x and x[0] == 'agg' and x[1].get('variant') == 'Err')
+                if leftover:
+                    n_left += 1
+                    ok_t = ok_t and is_err
+                if pay is not None and ends(pay):
+                    n_end += 1
+                    ok_f = ok_f and not leftover
+            R.check(ok_t and n_left >= 1, 'C16.R5', 'leftover->error', site(pdx, sw), 'leftover bytes at the end of a base64 body produce an error (paths: %d)' % n_left)
+            R.check(ok_f and n_end >= 1, 'C16.R5', 'clean-end-only-without-leftover', site(pdx, sw), 'Ready(None) only on the no-leftover edge (paths: %d)' % n_end)
             g = pdx.edge_guards(hr[0][0])
             R.check(any(tm[0] == 'discr' and 'poll_frame' in show(tm) and tm[2] and any(n == 'None' and vv in vals for vv, n in tm[2]) for s, vals, tm in g), 'C16.R5', 'leftover-test-at-inner-end', site(pdx, hr[0][0]), 'the leftover test happens when the inner body ended')
         pt = [(bb, t) for bb, t in pdx.calls(name='put') if 'buf' in show(pdx.origin(t['args'][0]))]
